@@ -402,6 +402,14 @@ def cbThen (c : Ctx) (s : St) (obs : List Obs) (frames : Nat → List Frame) (m 
   | 0 => k s obs
   | j + 1 => yieldNow c s obs (frames j)
 
+/-- a call into a collaborator at a call site: it either raises (`cbRaise`; `kErr` is what the surrounding code does
+with the exception) or returns after `cbYield` suspensions (`kOk`) -/
+def cbCall (c : Ctx) (cb : Cb) (n : Node) (s : St) (obs : List Obs) (frames : Nat → List Frame)
+    (kOk : St → List Obs → Out) (kErr : Exc → St → List Obs → Out) : Out :=
+  match c.P.cbRaise cb n with
+  | some e => kErr e s obs
+  | none => cbThen c s obs frames (c.P.cbYield cb n) kOk
+
 /-- the `finally` of `_run_node` on the normal path, then return to the caller frame -/
 def nodeFinish (c : Ctx) (s : St) (obs : List Obs) (d : DagRef) (n : Node) (below : List Frame) : Out :=
   retTo c (nodeFinally c.P s d n true) obs below .none
@@ -415,6 +423,17 @@ write back what it read (it may be a hidden result, i.e. `None`) -/
 def storeIf (s : St) (executedHere : Bool) (n : Node) (v : Val) : St :=
   if executedHere then s.setRes n v else s
 
+/-- a collaborator raised `e` inside `_run_node` / `_execute_node`: the `finally` of `_run_node` runs and the exception
+propagates out of the node's coroutine (nothing contains it, not even a one-of scope) -/
+def nodeCbRaise (c : Ctx) (s : St) (obs : List Obs) (d : DagRef) (n : Node) (below : List Frame) (e : Exc) : Out :=
+  raiseOut c (nodeFinally c.P s d n true) obs below (.exc e)
+
+/-- `on_node_complete` raised `e` inside the `try` of `_execute_node` (or inside `__execute_node`): an `Exception` is
+caught by `except Exception as ex`, which reports it with a second `on_node_complete(error=e)` — that raises again —
+so either way `e` leaves the node's coroutine -/
+def nodeCbRaiseInTry (c : Ctx) (s : St) (obs : List Obs) (d : DagRef) (n : Node) (below : List Frame) (e : Exc) : Out :=
+  nodeCbRaise c s (if e.isException then obs ++ [.ncomplete n (some e)] else obs) d n below e
+
 /-- `_run_node` after `_execute_node` returned `v` (manager.py 630–649) and the `finally` -/
 def nodePost (c : Ctx) (s : St) (obs : List Obs) (d : DagRef) (n : Node) (below : List Frame) (v : Val)
     (executedHere : Bool := true) : Out :=
@@ -423,8 +442,8 @@ def nodePost (c : Ctx) (s : St) (obs : List Obs) (d : DagRef) (n : Node) (below 
   let s := storeIf (recSpawn s d n v) executedHere n v
   -- fix c29fd0e: only a real value is saved, and only by the task that executed the node
   if executedHere && !v.isRecur && !v.isExc then
-    cbThen c s (obs ++ [.save n v]) (fun j => .node d n false (.cbSave j) :: below) (c.P.cbYield .save n)
-      (fun s obs => nodeFinish c s obs d n below)
+    cbCall c .save n s (obs ++ [.save n v]) (fun j => .node d n false (.cbSave j) :: below)
+      (fun s obs => nodeFinish c s obs d n below) (fun e s obs => nodeCbRaise c s obs d n below e)
   else retTo c (nodeFinally c.P s d n (!v.isRecur)) obs below .none
 
 /-- `_execute_node`'s `except Exception as ex` after its `emit_on_node_complete(error=ex)` (manager.py 335–340) -/
@@ -434,12 +453,12 @@ def nodeFailCont (c : Ctx) (s : St) (obs : List Obs) (d : DagRef) (n : Node) (be
 
 /-- `_execute_node`'s `except Exception as ex` (manager.py 333–340) -/
 def nodeFail (c : Ctx) (s : St) (obs : List Obs) (d : DagRef) (n : Node) (below : List Frame) (e : Exc) : Out :=
-  cbThen c s (obs ++ [.ncomplete n (some e)]) (fun j => .node d n false (.cbFail j e) :: below)
-    (c.P.cbYield .ncomplete n) (fun s obs => nodeFailCont c s obs d n below e)
+  cbCall c .ncomplete n s (obs ++ [.ncomplete n (some e)]) (fun j => .node d n false (.cbFail j e) :: below)
+    (fun s obs => nodeFailCont c s obs d n below e) (fun e' s obs => nodeCbRaise c s obs d n below e')
 
 def nodeSuccess (c : Ctx) (s : St) (obs : List Obs) (d : DagRef) (n : Node) (below : List Frame) (v : Val) : Out :=
-  cbThen c s (obs ++ [.ncomplete n none]) (fun j => .node d n false (.cbOk j v) :: below)
-    (c.P.cbYield .ncomplete n) (fun s obs => nodePost c s obs d n below v)
+  cbCall c .ncomplete n s (obs ++ [.ncomplete n none]) (fun j => .node d n false (.cbOk j v) :: below)
+    (fun s obs => nodePost c s obs d n below v) (fun e s obs => nodeCbRaiseInTry c s obs d n below e)
 
 def nodeDefault (c : Ctx) (s : St) (obs : List Obs) (d : DagRef) (n : Node) (below : List Frame) (kw : Kwargs) : Out :=
   nodeSuccess c s (obs ++ [.dflt n kw]) d n below (c.P.dflt n kw)
@@ -462,8 +481,9 @@ def nodeAfterBody (c : Ctx) (s : St) (obs : List Obs) (d : DagRef) (n : Node) (f
       if k == cfg.attemptsEff then
         if cfg.useDefault then nodeDefault c s obs d n below kw else nodeFail c s obs d n below e
       else
-        cbThen c s (obs ++ [.ncomplete n (some e)]) (fun j => .node d n force (.cbRetry j k kw inv) :: below)
-          (c.P.cbYield .ncomplete n) (fun s obs => nodeSleep c s obs d n force below k kw inv)
+        cbCall c .ncomplete n s (obs ++ [.ncomplete n (some e)]) (fun j => .node d n force (.cbRetry j k kw inv) :: below)
+          (fun s obs => nodeSleep c s obs d n force below k kw inv)
+          (fun e' s obs => nodeCbRaiseInTry c s obs d n below e')
     else if e.isException then
       if cfg.useDefault then nodeDefault c s obs d n below kw else nodeFail c s obs d n below e
     else
@@ -496,8 +516,8 @@ def nodeStart (c : Ctx) (s : St) (obs : List Obs) (d : DagRef) (n : Node) (force
   else
     let inv := s.invCount n
     let s := s.markProcessed n
-    cbThen c s (obs ++ [.nstart n]) (fun j => .node d n force (.cbStart j inv) :: below) (c.P.cbYield .nstart n)
-      (fun s obs => nodeBegin c s obs d n force below inv)
+    cbCall c .nstart n s (obs ++ [.nstart n]) (fun j => .node d n force (.cbStart j inv) :: below)
+      (fun s obs => nodeBegin c s obs d n force below inv) (fun e s obs => nodeCbRaise c s obs d n below e)
 
 /-- the wait predicate of `_run_oneof` for candidate `cand` with sub-DAG `sub` (manager.py 555–567) -/
 def oneofDone (s : St) (cand : Node) (sub : DagRef) : Bool :=
@@ -619,8 +639,13 @@ a BaseException outside Exception passes through without it -/
 def mgrComplete (c : Ctx) (s : St) (obs : List Obs) (o : Outcome) : Out :=
   match o with
   | .raised _ => mgrReturn c s obs o
-  | _ => cbThen c s (obs ++ [.pcomplete o]) (fun j => [.mgrCbComplete j o]) (c.P.cbYield .pcomplete 0)
+  | _ => cbCall c .pcomplete 0 s (obs ++ [.pcomplete o]) (fun j => [.mgrCbComplete j o])
            (fun s obs => mgrReturn c s obs o)
+           -- `on_pipeline_complete` raised: on the success path an `Exception` is caught by chart.run's own
+           -- `except Exception`, reported by a second `on_pipeline_complete(error)` — which raises again
+           (fun e s obs =>
+             let twice := match o with | .value _ => e.isException | _ => false
+             mgrReturn c s (if twice then obs ++ [.pcomplete (.error e)] else obs) (.raised e))
 
 /-- `manager.run` after its wait predicate became true, through `chart.run`'s result handling -/
 def mgrFinish (c : Ctx) (s : St) (obs : List Obs) : Out :=
@@ -643,8 +668,8 @@ def mgrBegin (c : Ctx) (s : St) (obs : List Obs) : Out :=
     | some d => mgrCheck c (spawn s [.dagInit d] .run).1 (obs ++ [.spawn s.tasks.length .run])
 
 def mgrStart (c : Ctx) (s : St) (obs : List Obs) : Out :=
-  cbThen c s (obs ++ [.pstart]) (fun j => [.mgrCbStart j]) (c.P.cbYield .pstart 0)
-    (fun s obs => mgrBegin c s obs)
+  cbCall c .pstart 0 s (obs ++ [.pstart]) (fun j => [.mgrCbStart j])
+    (fun s obs => mgrBegin c s obs) (fun e s obs => mgrReturn c s obs (.raised e))
 
 /-- CancelledError delivered to the current task at its suspension point -/
 def deliverCancel (c : Ctx) (s : St) (tk : Task) : Out :=
